@@ -94,28 +94,33 @@ def metricsJHandlers : List (String × JHandler) := [
         ("returnValue", ratJ p.returnValue), ("returnRate", valJ p.returnRate), ("annualized", valJ p.annualized),
         ("mdd", valJ p.mdd), ("sharpe", valJ p.sharpe), ("volatility", valJ p.volatility),
         ("alpha", valJ p.alpha), ("beta", valJ p.beta), ("benchRate", valJ p.benchRate), ("benchApr", valJ p.benchApr)])),
-  -- C19: the manager model on the projection (positions on market 1, positions on market 2, indicator columns);
-  -- `effects` = [[da, db, dc], …] in submission order, tasks assigned round-robin to the workers (the theorems say
-  -- the assignment is irrelevant for the current code)
+  -- C19: the manager model on the projection "what does each strategy find in the objects it is handed";
+  -- `effects` = [[posA, posB, cols, vals, cellsUser, cellsFill, prices], …] in submission order, tasks assigned round-robin to
+  -- the workers or all to one worker (the theorems say the assignment is irrelevant for the current code); answer `found` = per strategy
+  -- [positions on market 1, on market 2, references between markets intact, columns, values, depth missing, price cells]
   ("manager", fun j => do
     let threads ← jNat j "threads"
     let attach ← jStr j "attach"
     let flag (k : String) (dflt : Bool) : Bool := match jOpt j k with | some (.bool b) => b | _ => dflt
     let cow := flag "cow" true
-    let md : Manager.Mode := if attach == "original" then Manager.Mode.original cow
-      else if attach == "copied" then ⟨true, true, cow⟩ else Manager.Mode.current cow
+    let md : Manager.Mode := if attach == "original" then Manager.Mode.original cow else Manager.Mode.current cow
     let effs ← jArr j "effects"
     let strats ← effs.toList.mapM (fun e => match e with
-      | .arr #[x, y, z] => do
-        let da ← jRatOf x; let db ← jRatOf y; let dc ← jRatOf z
-        pure (Manager.countStrat da.num.toNat db.num.toNat dc.num.toNat)
-      | _ => throw "effects: expected [da, db, dc]")
+      | .arr #[a, b, c, v, nu, nf, p] => do
+        let n (x : Json) : Except String Nat := do pure (← jRatOf x).num.toNat
+        pure (Manager.probeStrat ⟨← n a, ← n b, ← n c, ← n v, ← n nu, ← n nf, ← n p⟩)
+      | _ => throw "effects: expected [posA, posB, cols, vals, cellsUser, cellsFill, prices]")
     let cpu := match jOpt j "cpu" with | some (.num n) => n.mantissa.toNat | _ => 1024
-    let cfg : Option (Nat × Nat) := if flag "cfgNone" false then none else some (0, 0)
-    let dat : Option Nat := if flag "dataNone" false then none else some 0
-    match Manager.managerRun md threads cpu (flag "windows" false) (flag "ctxSet" false) (fun i => i % (max threads 1)) cfg dat strats with
+    let env := Manager.probeEnv (flag "priceDec" false) (flag "linked" false)
+    let cfg : Option Manager.PM := if flag "cfgNone" false then none else some (0, 0, true)
+    let dat : Option Manager.PData := if flag "dataNone" false then none else some ⟨0, 0, 0, (0, false)⟩
+    -- scheduling: round-robin, or every task on the same worker (`oneWorker`): where the two answers differ the prediction
+    -- depends on the schedule (never with the current code)
+    let assign : Nat → Nat := if flag "oneWorker" false then (fun _ => 0) else (fun i => i % (max threads 1))
+    match Manager.managerRun env md threads cpu (flag "windows" false) (flag "ctxSet" false) assign cfg dat strats with
     | .done obs => pure (Json.mkObj [("outcome", .str "ok"),
-        ("positions", .arr (obs.map (fun o => Json.arr #[natJ o.1, natJ o.2.1, natJ o.2.2])).toArray)])
+        ("found", .arr (obs.map (fun o => Json.arr #[natJ o.1.1, natJ o.1.2.1, .bool o.1.2.2, natJ o.2.cols, natJ o.2.vals,
+          natJ o.2.cells, natJ o.2.prices.1])).toArray)])
     | .raised cls => pure (Json.mkObj [("outcome", .str cls)]))
 ]
 
